@@ -497,6 +497,29 @@ def gen_script(rng, max_ops, profile):
                     st.comps.pop(h, None)
                 st.marked = set()
                 # deferred destroys take effect (approximation: forget nothing; stale handles are harmless for guarded ops only)
+        elif choice == 'clear':
+            # EntityManager::clear(): every entity goes, the archetypes keep their storage for the next ones
+            if depth == 0:
+                lines.append('clear')
+                st.comps = {}
+                st.shared = {}
+                st.marked = set()
+        elif choice == 'splitassignremove':
+            # a component assigned under lock and removed again later in the same lock period, with a command on ANOTHER entity in
+            # between (two packs): program order says the entity ends without it
+            hs = [h for h in live_handles() if not st.shared.get(h) and h not in st.marked]
+            if depth or len(hs) < 2 or deps:
+                continue
+            a = rng.pick(hs)
+            b = rng.pick([h for h in hs if h != a])
+            ca = [p_ for p_ in pals if p_ not in st.comps[a] and p_ < 8]
+            cb = [p_ for p_ in pals if p_ not in st.comps[b]]
+            if not ca or not cb:
+                continue
+            pa, pb = rng.pick(ca), rng.pick(cb)
+            lines += ['lock', 'assign 0 #%d %d %d' % (a, pa, value()), '%s 0 #%d %d %d' % ('assign' if pb < 8 else 'assignid', b, pb, value()),
+                      'remove 0 #%d %d' % (a, pa), 'unlock']
+            st.comps[b] = set(st.comps[b]) | {pb}
         elif choice == 'cleararch':
             if depth == 0 and st.comps:
                 h = rng.pick(sorted(st.comps))
@@ -547,7 +570,7 @@ PROFILE_BASIC = {
     'threads': [0, 0, 1, 2, 3], 'pals': [0, 1, 2, 3, 4, 5, 6, 7], 'chunkcap': [0, 2, 3, 4, 8],
     'verchunk': [1, 2, 3, 5, 1024], 'deps': 0, 'shared': [], 'createarch': True,
     'weights': {'create': 26, 'destroynow': 10, 'destroy': 5, 'assign': 14, 'remove': 9, 'set': 8, 'get': 6,
-                'clone': 3, 'update': 4, 'cleararch': 2, 'lock': 6, 'unlock': 9, 'build': 7, 'recycle': 2, 'createremove': 2},
+                'clone': 3, 'update': 4, 'cleararch': 2, 'lock': 6, 'unlock': 9, 'build': 7, 'recycle': 2, 'createremove': 2, 'clear': 1, 'splitassignremove': 2},
 }
 
 
